@@ -27,9 +27,10 @@ Fixpoint sup (g t : Z) (spawned recvd : Z) (need : bool) (tr : list event) : boo
   end.
 Definition supervised (c : cfg) (tr : list event) : bool := sup (Z.of_nat (G c)) (T c) 0 0 false tr.
 
-(* ErrOverRecovery exactly when more than RecoverThreshold exits were processed *)
+(* ErrOverRecovery exactly when more than RecoverThreshold exits were processed
+   (a negative threshold is degenerate — "more than T exits" holds before anything ran — and not judged) *)
 Definition over_recovery_ok (c : cfg) (tr : list event) (ret : err) : bool :=
-  Bool.eqb (err_eqb ret ErrOverRecovery) (count_recv tr >? T c).
+  (T c <? 0) || Bool.eqb (err_eqb ret ErrOverRecovery) (count_recv tr >? T c).
 
 (* ---- fate of a started child, as seen from outside after prefork returned ---- *)
 Inductive cause := CExit (code : Z) | CTerm | CKill | COther | CNone.
